@@ -559,6 +559,17 @@ def resizers(rep, prog):
                             any(evaluate(x, {}) == 0 and not isinstance(evaluate(x, {}), bool) for x in (e.b, e.c)) and \
                             any(x.k == "call" and x.a.name == "len" for x in (e.b, e.c)):
                         empty_edges.append((b, t["otherwise"] if e.a == "Eq" else arms[0]))
+                # the copy is prefix to prefix: `new[..n] <- old[..n]` with one n (when both sides are written as
+                # index ranges; other idioms are not judged)
+                for c in f.calls():
+                    if c.bb not in copies or len(c.args) != 2:
+                        continue
+                    shapes = [_range_shape(f, a) for a in c.args]
+                    if None in shapes:
+                        continue
+                    okp = shapes[0] == shapes[1] and shapes[0][0] in ("RangeTo", "whole")
+                    rep.ob("RESIZE", "<%s as ResizableBytes>::resize|prefix copy" % st, okp,
+                           "old contents copied %s -> %s (expected the same `..n` prefix on both sides)" % (shapes[1], shapes[0]), loc=c.loc())
                 free2 = f.reachable(0, cut_blocks=copies, cut_edges=empty_edges)
                 bad2 = [b for b in rets if b in free2]
                 rep.ob("RESIZE", "<%s as ResizableBytes>::resize|contents kept" % st, bool(copies) and not bad2,
@@ -567,6 +578,36 @@ def resizers(rep, prog):
                            [f.loc(b) for b in (f.path_between(0, bad2[0], cut_blocks=copies, cut_edges=empty_edges) or []) if f.blocks[b]["t"]["k"] == "switch"][-1:] if bad2 else "?"),
                        loc=f.loc(bad2[0]) if bad2 else f0.loc())
     rep.floor("ResizableBytes::resize impls", n, 3)
+
+
+def _range_shape(f, operand):
+    """("whole",) if the operand is an un-narrowed view; (range kind, repr of its bounds) if its outermost narrowing
+    is an index by a range; None for anything else"""
+    ls = list(operand_locals(operand))
+    if not ls:
+        return None
+    if not cm.view_info(f, ls[0])[1]:
+        return ("whole",)
+    e = expr_of_operand(f, operand)
+    for _ in range(6):
+        if e.k == "call" and e.a.name in ("index", "index_mut") and len(e.a.args) == 2:
+            r = call_arg_exprs(e.a)[1]
+            if r.k == "agg" and r.a:
+                return (r.a.split("::")[-1], tuple(deep_repr(x) for x in (r.c or [])))
+            return None
+        if e.k in ("ref", "deref", "cast") and e.a is not None and hasattr(e.a, "k"):
+            e = e.a
+            continue
+        if e.k == "call" and len(e.a.args) == 1 and (e.a.path in cm_reslice() or e.a.rpath in cm_reslice()):
+            e = call_arg_exprs(e.a)[0]
+            continue
+        break
+    return None
+
+
+def cm_reslice():
+    from ..engines import RESLICE
+    return RESLICE
 
 
 PURE_READS = ("core::slice::<impl [T]>::len", "std::vec::Vec::<T, A>::len", "core::slice::<impl [T]>::is_empty",
